@@ -2,11 +2,13 @@ import Driver.Util
 import Driver.Suites.Blocks
 import Driver.Suites.Parse
 import Driver.Suites.Paths
+import Driver.Suites.Tar
 /-! Table of suites known to the driver.  One line per suite (merge=union friendly). -/
 namespace Driver
 def registry : List Suite := [
   Suites.Blocks.suite,
   Suites.Parse.suite,
   Suites.Paths.suite,
+  Suites.Tar.suite,
 ]
 end Driver
